@@ -5,6 +5,8 @@ use crate::case::{Case, CaseResult};
 
 pub mod common;
 pub mod c03;
+pub mod c17;
+pub mod c19;
 
 #[derive(Clone, Copy, PartialEq, Eq, Debug)]
 pub enum Tier {
@@ -42,6 +44,11 @@ pub trait Property: Sync + Send {
     }
     /// Execute a case. Runs inside a worker process.
     fn check(&self, case: &Case) -> CaseResult;
+    /// Whether a case that exceeds its wall clock limit is a violation (tiny,
+    /// always-terminating scenarios) rather than inconclusive.
+    fn timeout_is_violation(&self) -> bool {
+        false
+    }
     /// Per-case wall clock limit in seconds.
     fn timeout_s(&self) -> u64 {
         120
@@ -49,7 +56,7 @@ pub trait Property: Sync + Send {
 }
 
 pub fn all() -> Vec<Box<dyn Property>> {
-    vec![Box::new(c03::C03)]
+    vec![Box::new(c03::C03), Box::new(c17::C17), Box::new(c19::C19)]
 }
 
 pub fn get(id: &str) -> Option<Box<dyn Property>> {
